@@ -222,7 +222,7 @@ def run(ctx):
                      must_take=CONC_ACTIONS, key_fn=key_fn, tlc_kw=kw)
     # finest grain (vsched yield_after): the atomic operation and the plain code after it are separate steps, so
     # plain code on the wrong side of an atomic operation (a node published before it is armed) is exposed
-    with swapped_cover(cover_by_init(None if not ctx.quick else 12)):
+    with swapped_cover(cover_by_init(None)):
         graph_replay(ctx, "Adapters", "Adapters", "Adapters_fine.cfg" if ctx.quick else "Adapters_fine_full.cfg", "fine", rp,
                      proj_conc, header_fn=header("conc", fine=True),
                      must_take=FINE_ACTIONS, key_fn=key_fn, tlc_kw=kw, max_paths=None)
